@@ -1292,6 +1292,11 @@ async def client_async(case, out, loop):
             # 100 kB header and 1-byte fragments that is only CPU time, which the virtual clock does not measure
             frag = Frag([max(512, len(reply) // 12)])
             out.label("frag_capped_for_huge_header")
+        if len(reply) > 262144:
+            # megabyte replies: at most ~60 fragments (when the client does not recognise a blob reply it buffers and
+            # re-scans everything it has got on every fragment: minutes of CPU time with 2000 fragments of a 1 MiB reply)
+            frag = Frag([max(x, len(reply) // 60) if x else 0 for x in frag.sizes])
+            out.label("frag_capped_for_large_reply")
         srv = asyncio.ensure_future(serve(tc, reply, close_after, frag, case["split_k"], hdr_len))
         t0 = loop.time()
         result = None
